@@ -85,6 +85,8 @@ def run_case(case):
     except ValueError:
         r.discarded = True
         return r
+    if now.year > 9970:
+        now = now.replace(year=now.year - 40)     # the clock + 20 years must stay a representable date
     _Clock._now = now
     pad = 0
     wire = None
